@@ -8,6 +8,7 @@ from h5 import lean, wire
 
 ID = "C02"
 PROPS_MODULE = "H5.Props.C02"
+EXTRA_PROPS_MODULES = ["H5.Props.C02b"]
 GEN_MODULES = ["Constants", "Entities"]
 CORRESPONDENCE_OPS = ["tok", "toksteps", "tokpull"]
 SOURCES = ["html5lib/_tokenizer.py", "html5lib/_inputstream.py", "html5lib/constants.py", "html5lib/_trie/py.py",
